@@ -7,7 +7,7 @@ Outcome (return / raise / yield) carrying the final State.
 import ast
 import z3
 from . import sym
-from .sym import (VInt, VReal, VBool, VNone, VStr, VString, VElem, VMdEntry, VAw, VRef, VSeq,
+from .sym import (VFrame, VVec, VInt, VReal, VBool, VNone, VStr, VString, VElem, VMdEntry, VAw, VRef, VSeq,
                   VTuple, VList, VDict, VSet, VObj, VCallable, VBuiltin, VBound, VFunc,
                   VExc, VClass, Value)
 from .state import (State, ListCell, DictCell, SetCell, ObjCell, DictValLoc, Obligation,
@@ -641,6 +641,11 @@ class Interp:
                 self.assign(t, it, fr)
         elif isinstance(tgt, ast.Subscript):
             base = self.eval(tgt.value, fr)
+            if isinstance(tgt.slice, ast.Slice) and isinstance(base, VVec) and isinstance(tgt.value, ast.Name) \
+                    and tgt.slice.lower is None and tgt.slice.upper is None:
+                # vec[:] = c  : every component becomes c (in place; no alias of a freshly reduced vector exists)
+                fr.locals[tgt.value.id] = VVec(self.num(v, True))
+                return
             key = self.eval(tgt.slice, fr)
             self.set_item(base, key, v)
         else:
@@ -916,6 +921,13 @@ class Interp:
                     fm = self.st.fieldmap(obj.cls, name, kind.sort)
                     return kind.wrap(z3.Select(fm, obj.t))
             return VBound(obj, name)
+        if isinstance(obj, VFrame) or getattr(obj, 'frame_like', False):
+            h = self.spec_funcs.get('frame_attr')
+            if h is not None:
+                r = h(self, obj, name)
+                if r is not None:
+                    return r
+            return VBound(obj, name)
         if isinstance(obj, (VList, VSeq, VDict, VSet, VTuple, VMdEntry, VElem, VAw, VString, VStr)):
             return VBound(obj, name)
         if isinstance(obj, VBuiltin):
@@ -930,6 +942,8 @@ class Interp:
 
     def expr_Subscript(self, e, fr):
         base = self.eval(e.value, fr)
+        if getattr(base, 'frame_indexer', None):
+            return self.spec_funcs['frame_index'](self, base, e.slice, fr)
         if isinstance(e.slice, ast.Slice):
             return self.get_slice(base, e.slice, fr)
         key = self.eval(e.slice, fr)
@@ -1148,6 +1162,8 @@ class Interp:
         return self.binop(e.op, self.eval(e.left, fr), self.eval(e.right, fr))
 
     def binop(self, op, a, b):
+        if isinstance(a, VFrame) or isinstance(b, VFrame) or getattr(a, 'frame_like', False) or getattr(b, 'frame_like', False):
+            return self.spec_funcs['frame_binop'](self, op, a, b)
         if isinstance(a, (VString, VStr)) and isinstance(b, (VString, VStr)) and isinstance(op, ast.Add):
             if isinstance(a, VStr) and isinstance(b, VStr):
                 return VStr(a.s + b.s)
@@ -1156,6 +1172,8 @@ class Interp:
             real = isinstance(a, VReal) or isinstance(b, VReal) or isinstance(op, ast.Div)
             x, y = self.num(a, real), self.num(b, real)
             W = VReal if real else VInt
+            if isinstance(a, VVec) or isinstance(b, VVec):
+                W = VVec
             if isinstance(op, ast.Add):
                 return W(x + y)
             if isinstance(op, ast.Sub):
@@ -1163,6 +1181,8 @@ class Interp:
             if isinstance(op, ast.Mult):
                 return W(x * y)
             if isinstance(op, ast.Div):
+                if getattr(self, 'total_division', False):
+                    return W(x / y)      # numpy/pandas scalars: division by zero yields nan/inf, it does not raise
                 if not self.branch(y != 0):
                     self.raise_('ZeroDivisionError')
                 return VReal(x / y)
@@ -1177,7 +1197,7 @@ class Interp:
                 return VInt(z3.If(y > 0, x / y, (-x) / (-y)))
             if isinstance(op, ast.Pow):
                 sy = z3.simplify(y)
-                if z3.is_int_value(sy) and sy.as_long() == 2:
+                if (z3.is_int_value(sy) and sy.as_long() == 2) or (z3.is_rational_value(sy) and sy.numerator_as_long() == 2 and sy.denominator_as_long() == 1):
                     return W(x * x)
             raise Unsupported('arithmetic operator %s' % type(op).__name__)
         if isinstance(op, ast.Add) and isinstance(a, (VList, VSeq)) and isinstance(b, (VList, VSeq)):
@@ -1476,6 +1496,8 @@ class Interp:
 
     # ------------------------------------------------------------ methods of containers
     def call_method(self, recv, name, args, kwargs, fr):
+        if isinstance(recv, VFrame) or getattr(recv, 'frame_like', False):
+            return self.spec_funcs['frame_method'](self, recv, name, args, kwargs)
         if isinstance(recv, VObj) and self.st.heap[recv.loc].cls == '__strdict__':
             if name == 'keys':
                 return recv
@@ -1738,6 +1760,8 @@ EXC_CLASSES = {'ValueError', 'KeyError', 'IndexError', 'TypeError', 'RuntimeErro
 # ---------------------------------------------------------------- builtins
 def _b_len(I, args, kwargs, fr):
     v = args[0]
+    if isinstance(v, VFrame) or getattr(v, 'frame_like', False):
+        return I.spec_funcs['frame_len'](I, v)
     if isinstance(v, VTuple):
         return VInt(len(v.items))
     if isinstance(v, VDict):
@@ -1811,6 +1835,8 @@ def _b_isinstance(I, args, kwargs, fr):
             res = res or isinstance(v, (VDict, VMdEntry))
         elif n == 'Stream':
             res = res or isinstance(v, (VObj, VRef))
+        elif n == 'Number':
+            res = res or (isinstance(v, (VInt, VReal)) and not isinstance(v, VVec))
         elif n == 'Iterable':
             res = res or isinstance(v, (VList, VSeq, VTuple))
         else:
